@@ -351,6 +351,14 @@ pub fn bytes_reply<const N: usize, const W: usize, const PL: usize>(p: u8, which
         script.bytes_len = PL;
         script.bytes = kani::any();
         script.reply_count = which == 23 && kani::any();
+        if p == 3 && PL > 0 {
+            // payload content is checked against a plain success; the symbolic error answer is
+            // combined with the empty payload (c03_len0).  A symbolic io::Result<Vec<u8>> keeps
+            // its discriminant in the Vec's capacity niche and the error in the pointer field:
+            // CBMC then treats the payload pointer as possibly-integer and reads nondet bytes
+            // (spurious counterexample, did not reproduce natively).
+            script.err = 0;
+        }
     }
     let res = drive(hdr, &mut body, &mut wbuf, dev_refuses, script, |s, c| if which == 5 { s.readlink(c) } else { s.listxattr(c) });
     let s = sc();
@@ -378,7 +386,7 @@ pub fn bytes_reply<const N: usize, const W: usize, const PL: usize>(p: u8, which
             assert!(reply_len() == 16 + kn_bytes_len() && reply_error() == 0, "[C03] byte reply carries exactly the bytes returned");
             let mut i = 0;
             while i < kn_bytes_len() {
-                assert!(r[16 + i] == s.bytes[i], "[C03] byte reply content");
+                assert!(r[16 + i] == kn_bytes()[i], "[C03] byte reply content");
                 i += 1;
             }
         }
